@@ -197,6 +197,108 @@ def run(ctx):  # noqa: C901, PLR0912, PLR0915
         n_deref += _check_none_derefs(ctx, fi, producers)
     ctx.floor('C03.R3', n_deref, 12, 'dereferences of TransactionItem.old/.new in the commit closure')
 
+    # ------------------------------------------------------------------ R7 a rejected API call leaves the transaction as it was
+    ctx.rule('C03.R7', 'validate before mutate: in a transaction API method no explicit raise is reachable after the method '
+                       'has changed the transaction (a rejected call has no partial effect)')
+    by_cls = {}
+    for fi in api_funcs:
+        by_cls.setdefault(fi.cls.qual, []).append(fi)
+
+    def _mutates_directly(n):
+        st = n.stmt
+        if n.kind == 'stmt' and isinstance(st, (ast.Assign, ast.Delete)):
+            tg = st.targets
+            return any(isinstance(t, ast.Subscript) and '_updates' in unparse(t.value) and unparse(t.value).startswith('self.')
+                       for t in tg)
+        return False
+    summary = {}
+
+    def _summary(cls_q, name, depth=0):
+        """(mutates the transaction?, [explicit raise guards as symbolic literal sets]) of method `name` resolved on cls_q."""
+        key = (cls_q, name)
+        if key in summary:
+            return summary[key]
+        summary[key] = (False, [])
+        f = repo.resolve_method(cls_q, name)
+        if f is None or f.module.name != TR or depth > 3:
+            return summary[key]
+        gf = cfg_of(f)
+        mut = any(_mutates_directly(n) for n in gf.real_nodes())
+        # `raise NotImplementedError` marks a case the author states cannot happen (exhaustive classification): not a rejection
+        guards = [frozenset(gf.facts_symbolic(n)) for n in gf.nodes if n.kind == 'raisestmt' and n.stmt.exc is not None
+                  and 'NotImplementedError' not in unparse(n.stmt.exc)]
+        for n in gf.real_nodes():
+            for c in n.calls():
+                if isinstance(c.func, ast.Attribute) and unparse(c.func.value) == 'self':
+                    m2, g2 = _summary(cls_q, c.func.attr, depth + 1)
+                    mut = mut or m2
+                    guards = guards + [frozenset()] * len(g2)   # guards of nested callees: not comparable, kept as unconditional
+        summary[key] = (mut, guards)
+        return summary[key]
+    n_api = 0
+    for cq in classes:
+        for fi in [f for c in repo.mro(cq) if c in by_cls for f in by_cls[c]]:
+            if fi.name.startswith('_') or repo.resolve_method(cq, fi.name) is not fi:
+                continue
+            g7 = cfg_of(fi)
+            muts, raisers = [], []
+            for n in g7.real_nodes():
+                if _mutates_directly(n):
+                    muts.append((n, 'store'))
+                for c in n.calls():
+                    if isinstance(c.func, ast.Attribute) and unparse(c.func.value) == 'self':
+                        m2, g2 = _summary(cq, c.func.attr)
+                        if m2:
+                            muts.append((n, f'self.{c.func.attr}()'))
+                        # a callee can reject only what the caller of THIS method handed in: arguments computed from the MDIB
+                        # tables (e.g. handles of states just looked up) were accepted before
+                        from_caller = any('$' in g7.symbolic_text(n, a) and 'self._mdib' not in g7.symbolic_text(n, a)
+                                          for a in list(c.args) + [k.value for k in c.keywords])
+                        if g2 and from_caller:
+                            raisers.append((n, f'self.{c.func.attr}()', g2, c))
+            for n in g7.nodes:
+                if n.kind == 'raisestmt' and n.stmt.exc is not None and 'NotImplementedError' not in unparse(n.stmt.exc):
+                    raisers.append((n, 'raise', None, None))
+
+            def _rolled_back(rn, mn):
+                """The raising call sits in a try whose catch-all handler removes what the mutation mn stored and re-raises."""
+                if mn.kind != 'stmt' or not isinstance(mn.stmt, ast.Assign):
+                    return False
+                stored = unparse(mn.stmt.targets[0])
+                for t, part in rn.trys:
+                    if part != 'body':
+                        continue
+                    for h in t.handlers:
+                        if not (h.type is None or 'Exception' in unparse(h.type)):
+                            continue
+                        dels = [unparse(x) for st_ in h.body if isinstance(st_, ast.Delete) for x in st_.targets]
+                        reraise = any(isinstance(st_, ast.Raise) and st_.exc is None for st_ in h.body)
+                        if stored in dels and reraise:
+                            return True
+                return False
+            if not muts:
+                continue
+            n_api += 1
+            bad = []
+            for rn, what, guards, call in raisers:
+                for mn, mwhat in muts:
+                    if not g7.path_exists(mn, rn, normal_only=True):
+                        continue
+                    if guards is not None and call is not None and _prevalidated(g7, fi, rn, call, guards):
+                        continue
+                    if _rolled_back(rn, mn):
+                        continue
+                    bad.append(f'{mwhat} at line {mn.lineno} can be followed by {what} at line {rn.lineno}')
+                    break
+            key7 = f'{fi.cls.name}.{fi.name}' if repo.resolve_method(cq, fi.name).cls.qual == fi.cls.qual else fi.name
+            ctx.ob('C03.R7', f'{key7} on {cq.rsplit(".", 1)[1]}', not bad,
+                   f'{fi.cls.name}.{fi.name}: every check that can reject the call runs before the transaction is changed'
+                   if not bad else
+                   f'{fi.cls.name}.{fi.name} can reject a call after it has already changed the transaction '
+                   f'({"; ".join(bad[:3])}): when the application handles the exception inside the transaction body the '
+                   f'accepted part is committed - the rejected call had an effect', fi=fi, witness=bad)
+    ctx.floor('C03.R7', n_api, 10, 'transaction API methods that change the transaction')
+
     # ------------------------------------------------------------------ R6 unique keys are checked when the call is made
     ctx.rule('C03.R6', 'a new object is accepted into a transaction only after its unique key was checked against the table')
     unique_idx = {'descriptions': 'handle', 'states': 'descriptor_handle', 'context_states': 'handle'}
@@ -334,6 +436,36 @@ def run(ctx):  # noqa: C901, PLR0912, PLR0915
            '_update_from_other deep-copies the property values' if deep else
            '_update_from_other copies property values one level only (copy.copy): after a descriptor update / a '
            'consumer-side update the table object shares nested values with the source object', fi=uo)
+
+
+def _prevalidated(g, fi, call_node, call, guards):
+    """The raising, mutating callee is called in a loop `for x in XS: self.m(x, ..)`; every condition under which the callee
+    raises (on its first parameter) is raised for by an earlier loop over the same XS that changes nothing: all elements are
+    checked before any is written."""
+    loops = [lp for lp in call_node.loops if isinstance(lp, ast.For) and isinstance(lp.target, ast.Name)]
+    if not loops or not call.args or not isinstance(call.args[0], ast.Name) or call.args[0].id != loops[-1].target.id:
+        return False
+    it = unparse(loops[-1].iter)
+    head = next((h for h in g.nodes if h.kind == 'for' and h.stmt is loops[-1]), None)
+    checked = []
+    for h in g.nodes:
+        if h.kind == 'for' and h.stmt is not loops[-1] and unparse(h.stmt.iter) == it and isinstance(h.stmt.target, ast.Name) \
+                and head is not None and g.dominates(h, head):
+            body_nodes = [n for n in g.real_nodes() if h.stmt in n.loops]
+            if any(n.kind == 'stmt' and isinstance(n.stmt, (ast.Assign, ast.Delete)) and
+                   any(isinstance(t, ast.Subscript) for t in getattr(n.stmt, 'targets', [])) for n in body_nodes):
+                continue
+            for n in g.nodes:
+                if n.kind == 'raisestmt' and h.stmt in n.loops:
+                    lits = {(t.replace(f'elem({g.symbolic_text(h, h.stmt.iter)})', '$E'), p) for t, p in g.facts_symbolic(n)}
+                    checked.append(lits)
+    if not checked:
+        return False
+    for gset in guards:
+        lits = {(t.replace('$1', '$E'), p) for t, p in gset}
+        if not any(c <= lits for c in checked):
+            return False
+    return True
 
 
 _lookup_cache = {}
